@@ -256,7 +256,17 @@ def ci_returns(a, p, ex):
   dims = [fresh('rd%d' % k, z3.IntSort()) for k in range(rank)]
   for d in dims:
     p.assume(d >= 0)
-  data = p.new_loc(ArrState(fresh('formed', T), Shape(rank, dims), 'f', FRESH_OWNER))
+  # check_array(copy=False) hands a well-formed float ndarray back AS IS: the validated data may be the caller's own array (C17: it must
+  # then never be written to in place).  Its owner set is therefore the argument's, not "fresh".
+  src = None
+  for nm in ('input_data', 'X'):
+    try:
+      src = a.raw(nm)
+      break
+    except (KeyError, AttributeError):
+      continue
+  owner = p.store[src.loc].owner if isinstance(src, VArr) else FRESH_OWNER
+  data = p.new_loc(ArrState(fresh('formed', T), Shape(rank, dims), 'f', owner))
   if a.y is None:
     return data
   yv = a.raw('y')
